@@ -180,7 +180,7 @@ impl Property for C15 {
     }
     fn runs(&self, tier: Tier) -> usize {
         match tier {
-            Tier::Quick => 1500,
+            Tier::Quick => 4000,
             Tier::Thorough => 12_000,
         }
     }
